@@ -151,7 +151,15 @@ impl Jet {
         }
         acc
     }
+    /// first-order error analysis of a non-linear function needs an argument with significant digits
+    fn significant(&self) -> bool {
+        let x = self.c[0];
+        crate::ring::unit() * x.e * 16.0 <= x.v.abs() || x.e == 0.0
+    }
     pub fn apply(&self, f: Fun) -> Option<Jet> {
+        if !self.significant() && !matches!(f, Fun::Sin | Fun::Cos | Fun::Exp | Fun::ExpM1 | Fun::Atan | Fun::Sinh | Fun::Cosh | Fun::Tanh | Fun::Asinh | Fun::Exp2) {
+            return None;
+        }
         let t = taylor::taylor(f, self.c[0], self.alg.depth())?;
         Some(self.compose(&t))
     }
@@ -162,10 +170,37 @@ impl Jet {
         Some(self.mul(&o.recip()?))
     }
     pub fn powf(&self, n: f64, leaf_units: f64) -> Option<Jet> {
+        if !self.significant() {
+            return None;
+        }
         let t = taylor::taylor_powf(self.c[0], n, self.alg.depth(), leaf_units)?;
         Some(self.compose(&t))
     }
+    /// x^n with the value from the direct Taylor data and the rounding bound of the library's
+    /// algorithm x^(n-3) * x * x * x applied on each of `levels` nesting levels (the products
+    /// re-create the low-order parts from large cancelling terms when |n| is small).
+    pub fn powf_lib(&self, n: f64, leaf_units: f64, levels: usize) -> Option<Jet> {
+        let mut v = self.powf(n, leaf_units)?;
+        if self.c[0].v == 0.0 {
+            return Some(v);
+        }
+        let k = 3 * levels.max(1);
+        let mut b = self.powf(n - k as f64, leaf_units)?;
+        for _ in 0..k {
+            b = b.mul(self);
+        }
+        for (cv, cb) in v.c.iter_mut().zip(&b.c) {
+            if cb.e.is_finite() {
+                cv.e = cv.e.max(cb.e);
+                cv.m = cv.m.max(cb.m);
+            }
+        }
+        Some(v)
+    }
     pub fn log(&self, base: f64) -> Option<Jet> {
+        if !self.significant() {
+            return None;
+        }
         let t = taylor::taylor_log(self.c[0], base, self.alg.depth())?;
         Some(self.compose(&t))
     }
